@@ -2,6 +2,7 @@ package univ
 
 import (
 	"fmt"
+	"strings"
 
 	"verif/mc/spec"
 )
@@ -118,6 +119,24 @@ func BindSpecs(thorough bool) []*spec.Spec {
 		}
 		f := &spec.File{Messages: append(msgs, spec.M("Out", spec.F("ok", "bool"))), Services: []*spec.Service{s}}
 		out = append(out, withCell(spec.One("bind_annotated", f), "bind/loc=url,card=annotated", "extended", "valid", "bind"))
+	}
+	// one-class files: every URL-bound field of the file is of one kind class, so that whatever a generator emits once per file
+	// depending on what the file binds (conversion helpers, imports) is exercised without another kind in the file supplying it
+	for _, cl := range []struct {
+		name  string
+		kinds []string
+	}{{"text", []string{"string"}}, {"wide", []string{"int64", "uint64", "sint64", "fixed64", "sfixed64"}}, {"narrow", []string{"int32", "uint32", "sint32", "fixed32", "sfixed32"}},
+		{"bools", []string{"bool"}}, {"floats", []string{"float", "double"}}} {
+		var msgs []*spec.Message
+		s := spec.Svc("Only"+strings.Title(cl.name)+"Service", "/only")
+		for _, k := range cl.kinds {
+			pm := spec.M("OP_"+k, spec.F("v", k), spec.F("note", "bytes"))
+			qm := spec.M("OQ_"+k, spec.F("one", k).Q(""), spec.F("many", k).Rep().Q("m"))
+			msgs = append(msgs, pm, qm)
+			s.Methods = append(s.Methods, spec.RPC("Put_"+k, pm.Name, "Out", "PUT", "/p/"+k+"/{v}"), spec.RPC("Query_"+k, qm.Name, "Out", "GET", "/q/"+k))
+		}
+		f := &spec.File{Messages: append(msgs, spec.M("Out", spec.F("ok", "bool"))), Services: []*spec.Service{s}}
+		out = append(out, withCell(spec.One("bind_only_"+cl.name, f), "bind/loc=url,card=only_"+cl.name, "extended", "valid", "bind"))
 	}
 	return out
 }
